@@ -137,7 +137,7 @@ theorem parseRange_suffix (v : Variant) (size : Nat) (n : Num) (hn : n ≠ []) :
 theorem spec_noComma (s : Spec) : ∀ x ∈ s.str, (x == ',') = false := by
   have hd := numStr_ne (c := ',') (hc := fun d => (digitChar_props d).2.2.2.2.2.1)
   intro x hx
-  cases s <;> simp only [Spec.str, List.mem_append, List.mem_cons, List.mem_singleton] at hx
+  cases s <;> simp only [Spec.str, List.mem_append, List.mem_cons] at hx
   · rcases hx with hx | rfl | hx
     · exact hd _ x hx
     · decide
@@ -152,7 +152,7 @@ theorem spec_noComma (s : Spec) : ∀ x ∈ s.str, (x == ',') = false := by
 theorem spec_noWs (s : Spec) : ∀ x ∈ s.str, isWs x = false := by
   have hd := numStr_noWs
   intro x hx
-  cases s <;> simp only [Spec.str, List.mem_append, List.mem_cons, List.mem_singleton] at hx
+  cases s <;> simp only [Spec.str, List.mem_append, List.mem_cons] at hx
   · rcases hx with hx | rfl | hx
     · exact hd _ x hx
     · decide
